@@ -12,7 +12,7 @@ pub const ID_CAP: u32 = 260;
 /// 0 move-through, 1 replace by a fresh token, 2 clone-and-keep, 3 move-through written as
 /// `|t: Tok| -> Tok {..}`, 4 a function path instead of a closure (cannot exit early)
 pub const N_CLOSURES: u8 = 5;
-pub const N_SHAPES: u8 = 26;
+pub const N_SHAPES: u8 = 27;
 
 #[derive(Serialize, Deserialize, Clone, Copy, Debug, PartialEq)]
 pub enum Exit {
@@ -203,7 +203,8 @@ pub fn shape_layout(shape: u8) -> Vec<bool> {
         22 => vec![true, false],                          // [a] and [_]
         23 => vec![true, true, true],                     // S3 {z, x, y}: pattern order differs from declaration order
         24 => vec![true, false, true],                    // T3(a, _, c)
-        _ => vec![true, true],                            // [a, rest @ .., z] over 2 elements (empty rest)
+        25 => vec![true, true],                           // [a, rest @ .., z] over 2 elements (empty rest)
+        _ => vec![true, true],                            // #[repr(C, packed(2))] struct: fields 2-aligned, Tok needs 4
     }
 }
 
@@ -792,7 +793,13 @@ fn fit_exit(m: &Model, o: usize, exit: Exit) -> Exit {
 // fault sweep: every (site, N, k) cell once, in an otherwise fault-free short scenario
 
 pub fn sweep_cases() -> Vec<(String, FCase)> {
-    let mut out: Vec<(String, FCase)> = Vec::new();
+    sweep_build(&|_| true, true).0
+}
+
+/// `want(i)`: materialise cell i; `names`: format the names (of all cells). Both are costly under
+/// Miri, so batch loops ask for exactly what they need. Returns the entries and the cell count.
+pub fn sweep_build(want: &dyn Fn(u64) -> bool, names: bool) -> (Vec<(String, FCase)>, u64) {
+    let mut out = SweepOut { v: Vec::new(), idx: 0, want, names };
     for &n in NS.iter() {
         // consumer half-taken from both ends
         let mut cons_prefix = vec![FOp::NewArray { n }, FOp::ToConsumer { o: 0 }];
@@ -820,17 +827,17 @@ pub fn sweep_cases() -> Vec<(String, FCase)> {
             let mut p = cons_prefix.clone();
             p.push(FOp::CClone { o: 0, fault: k });
             p.push(FOp::CAsSlice { o: 0 });
-            out.push((format!("consumer-clone/N={n}/k={k}/remaining={remaining}"), FCase { plan: p }));
+            out.emit(&|| format!("consumer-clone/N={n}/k={k}/remaining={remaining}"), p);
             let mut p = cons_prefix.clone();
             p.push(FOp::CDrop { o: 0, fault: k });
-            out.push((format!("consumer-drop/N={n}/k={k}/remaining={remaining}"), FCase { plan: p }));
+            out.emit(&|| format!("consumer-drop/N={n}/k={k}/remaining={remaining}"), p);
             let mut p = build_prefix.clone();
             p.push(FOp::BClone { o: 0, fault: k });
             p.push(FOp::BObserve { o: 0 });
-            out.push((format!("builder-clone/N={n}/k={k}/filled={filled}"), FCase { plan: p }));
+            out.emit(&|| format!("builder-clone/N={n}/k={k}/filled={filled}"), p);
             let mut p = build_prefix.clone();
             p.push(FOp::BDrop { o: 0, fault: k });
-            out.push((format!("builder-drop/N={n}/k={k}/filled={filled}"), FCase { plan: p }));
+            out.emit(&|| format!("builder-drop/N={n}/k={k}/filled={filled}"), p);
             for (ename, mk) in [
                 ("panic", Exit::Panic as fn(u32) -> Exit),
                 ("break", Exit::Break as fn(u32) -> Exit),
@@ -838,18 +845,15 @@ pub fn sweep_cases() -> Vec<(String, FCase)> {
                 ("return", Exit::Return as fn(u32) -> Exit),
             ] {
                 for closure in 0..N_CLOSURES {
-                    out.push((
-                        format!("map_/closure={closure}/{ename}/N={n}/k={k}"),
-                        FCase { plan: vec![FOp::NewArray { n }, FOp::MapNew { o: 0, closure, exit: mk(k) }] },
-                    ));
+                    out.emit(&|| format!("map_/closure={closure}/{ename}/N={n}/k={k}"), vec![FOp::NewArray { n }, FOp::MapNew { o: 0, closure, exit: mk(k) }]);
                 }
                 for typed in [false, true] {
-                    out.push((format!("from_fn_/typed={typed}/{ename}/N={n}/k={k}"), FCase { plan: vec![FOp::FromFnNew { n, exit: mk(k), typed }] }));
+                    out.emit(&|| format!("from_fn_/typed={typed}/{ename}/N={n}/k={k}"), vec![FOp::FromFnNew { n, exit: mk(k), typed }]);
                 }
                 if ename != "continue" {
-                    out.push((format!("map!/{ename}/N={n}/k={k}"), FCase { plan: vec![FOp::NewArray { n }, FOp::MapOld { o: 0, exit: mk(k) }] }));
+                    out.emit(&|| format!("map!/{ename}/N={n}/k={k}"), vec![FOp::NewArray { n }, FOp::MapOld { o: 0, exit: mk(k) }]);
                     for typed in [false, true] {
-                        out.push((format!("from_fn!/typed={typed}/{ename}/N={n}/k={k}"), FCase { plan: vec![FOp::FromFnOld { n, exit: mk(k), typed }] }));
+                        out.emit(&|| format!("from_fn!/typed={typed}/{ename}/N={n}/k={k}"), vec![FOp::FromFnOld { n, exit: mk(k), typed }]);
                     }
                 }
             }
@@ -857,10 +861,10 @@ pub fn sweep_cases() -> Vec<(String, FCase)> {
         // misuse cells
         let mut p = cons_prefix.clone();
         p.push(FOp::CAssertEmpty { o: 0 });
-        out.push((format!("misuse-assert_is_empty/N={n}/remaining={remaining}"), FCase { plan: p }));
+        out.emit(&|| format!("misuse-assert_is_empty/N={n}/remaining={remaining}"), p);
         let mut p = build_prefix.clone();
         p.push(FOp::BBuild { o: 0 });
-        out.push((format!("misuse-build-not-full/N={n}/filled={filled}"), FCase { plan: p }));
+        out.emit(&|| format!("misuse-build-not-full/N={n}/filled={filled}"), p);
         let mut p = build_prefix.clone();
         for _ in filled..n {
             p.push(FOp::BPush { o: 0, t: 0 });
@@ -873,7 +877,7 @@ pub fn sweep_cases() -> Vec<(String, FCase)> {
         p.push(FOp::BPush { o: 0, t: 0 });
         p.push(FOp::BObserve { o: 0 });
         p.push(FOp::BBuild { o: 0 });
-        out.push((format!("misuse-push-full/N={n}"), FCase { plan: p }));
+        out.emit(&|| format!("misuse-push-full/N={n}"), p);
     }
     // fault-free exhaustion cells: steps on drained / empty containers, clones of them, zero-length builds
     for &n in NS.iter() {
@@ -882,17 +886,14 @@ pub fn sweep_cases() -> Vec<(String, FCase)> {
             p.push(FOp::CNext { o: 0 });
         }
         p.extend([FOp::CNextBack { o: 0 }, FOp::CNextBack { o: 0 }, FOp::CAsSlice { o: 0 }, FOp::CClone { o: 0, fault: 0 }, FOp::CAsSlice { o: 1 }, FOp::CNext { o: 1 }, FOp::CDebug { o: 0 }, FOp::CAssertEmpty { o: 0 }, FOp::CDrop { o: 0, fault: 0 }]);
-        out.push((format!("exhaustion/consumer-drained-from-front/N={n}"), FCase { plan: p }));
+        out.emit(&|| format!("exhaustion/consumer-drained-from-front/N={n}"), p);
         let mut p = vec![FOp::NewArray { n }, FOp::ToConsumer { o: 0 }];
         for _ in 0..n + 1 {
             p.push(FOp::CNextBack { o: 0 });
         }
         p.extend([FOp::CNext { o: 0 }, FOp::CAsSlice { o: 0 }, FOp::CSwap { o: 0, i: 0, j: 1 }, FOp::CClone { o: 0, fault: 0 }, FOp::CDrop { o: 0, fault: 0 }, FOp::CDrop { o: 0, fault: 0 }]);
-        out.push((format!("exhaustion/consumer-drained-from-back/N={n}"), FCase { plan: p }));
-        out.push((
-            format!("exhaustion/empty-consumer/N={n}"),
-            FCase { plan: vec![FOp::EmptyConsumer { n }, FOp::CNext { o: 0 }, FOp::CNextBack { o: 0 }, FOp::CAsSlice { o: 0 }, FOp::CClone { o: 0, fault: 0 }, FOp::CDebug { o: 1 }, FOp::CCloneFrom { o: 0, c: 0 }, FOp::CAssertEmpty { o: 1 }, FOp::CDrop { o: 0, fault: 0 }] },
-        ));
+        out.emit(&|| format!("exhaustion/consumer-drained-from-back/N={n}"), p);
+        out.emit(&|| format!("exhaustion/empty-consumer/N={n}"), vec![FOp::EmptyConsumer { n }, FOp::CNext { o: 0 }, FOp::CNextBack { o: 0 }, FOp::CAsSlice { o: 0 }, FOp::CClone { o: 0, fault: 0 }, FOp::CDebug { o: 1 }, FOp::CCloneFrom { o: 0, c: 0 }, FOp::CAssertEmpty { o: 1 }, FOp::CDrop { o: 0, fault: 0 }]);
         let mut p = vec![FOp::NewArray { n }, FOp::ToConsumer { o: 0 }];
         for i in 0..n {
             p.push(if i % 2 == 0 { FOp::CNext { o: 0 } } else { FOp::CNextBack { o: 0 } });
@@ -902,7 +903,7 @@ pub fn sweep_cases() -> Vec<(String, FCase)> {
             p.push(FOp::BPush { o: 0, t: 0 });
         }
         p.extend([FOp::BObserve { o: 0 }, FOp::BSwap { o: 0, i: 0, j: 1 }, FOp::BClone { o: 0, fault: 0 }, FOp::BInferLen { o: 0, c: 0 }, FOp::BBuild { o: 0 }, FOp::BBuild { o: 0 }, FOp::ToConsumer { o: 0 }, FOp::CNextBack { o: 1 }, FOp::MapNew { o: 0, closure: 0, exit: Exit::None }, FOp::ADrop { o: 0, fault: 0 }]);
-        out.push((format!("exhaustion/builder-fill-clone-build-recirculate/N={n}"), FCase { plan: p }));
+        out.emit(&|| format!("exhaustion/builder-fill-clone-build-recirculate/N={n}"), p);
     }
     // every destructure! shape once (no fault: the by-value reads themselves are the subject; under
     // Miri this is where a misaligned or out-of-bounds read of a field shows)
@@ -912,7 +913,28 @@ pub fn sweep_cases() -> Vec<(String, FCase)> {
             p.push(if i % 2 == 0 { FOp::CNext { o: i / 8 } } else { FOp::CNextBack { o: i / 8 } });
         }
         p.push(FOp::Destructure { shape });
-        out.push((format!("destructure/shape={shape}"), FCase { plan: p }));
+        out.emit(&|| format!("destructure/shape={shape}"), p);
     }
-    out
+    let n = out.len();
+    (out.v, n)
+}
+
+struct SweepOut<'a> {
+    v: Vec<(String, FCase)>,
+    idx: u64,
+    want: &'a dyn Fn(u64) -> bool,
+    names: bool,
+}
+impl SweepOut<'_> {
+    fn emit(&mut self, name: &dyn Fn() -> String, plan: Vec<FOp>) {
+        if (self.want)(self.idx) {
+            self.v.push((if self.names { name() } else { String::new() }, FCase { plan }));
+        } else if self.names {
+            self.v.push((name(), FCase { plan: Vec::new() }));
+        }
+        self.idx += 1;
+    }
+    fn len(&self) -> u64 {
+        self.idx
+    }
 }
